@@ -232,7 +232,26 @@ def check_faults(prop_id, tier, seed):
     return report.finish()
 
 
-SPECIAL = {"C19": "c19", "C15": "c15", "C14": "c14", "C20": "c20"}
+def check_conc(prop_id, tier, seed):
+    from . import conc, faults
+    report = Report(prop_id, tier, seed)
+    report.lean = framework.lean_obligations(prop_id, thorough=(tier == "thorough"))
+    cov = conc.run(prop_id, tier, seed, report)
+    if prop_id == "C08":
+        fc = faults.run("C08", tier, seed, report)
+        cov["evaluations"] += fc["evaluations"]
+        cov["distinct_nontrivial"] += fc["distinct_nontrivial"]
+        cov["rule"] += "; plus, for every single call, an I/O error at each of its fault sites (see C13): lock lists must be empty afterwards and the follow-up call must complete"
+        cov["samples"] += fc["samples"][:1]
+    if (report.lean["broken"] or report.disagreements) and not report.findings and tier == "quick":
+        more = conc.run(prop_id, "thorough", seed + 7919, report)
+        cov["evaluations"] += more["evaluations"]
+        report.notes.append("failing-input search ran the thorough schedule budget")
+    report.coverage.update(cov)
+    return report.finish()
+
+
+SPECIAL = {"C19": "c19", "C15": "c15", "C14": "c14", "C20": "c20", "C16": "c16"}
 
 
 def main(argv):
@@ -247,6 +266,8 @@ def main(argv):
         tier = argv[2]
         if prop_id in props_seq.SEQ_PROPS:
             return check_seq(prop_id, tier, seed)
+        if prop_id in ("C07", "C08", "C12"):
+            return check_conc(prop_id, tier, seed)
         if prop_id in ("C13",):
             return check_faults(prop_id, tier, seed)
         if prop_id in ("C09", "C10"):
